@@ -1,6 +1,7 @@
 """Differential validation of the MIR executor itself (not a deciding step): the same interpreter on CONCRETE inputs must reproduce native behaviour.
 A mismatch makes the run inconclusive (exit 2): nothing decided by the engine is believed until it is explained."""
 import os, json, glob
+import z3
 from vlib import e2, build
 from vlib.core import Ob
 import mirsym as ms
@@ -86,3 +87,57 @@ def parser_obligations(prefix):
             Ob(prefix + '-engine-selftest-parser-all', 'MIR executor reproduces the native parser on concrete corpus token streams (all small corpus files)', ob_parser_selftest, ('thorough',), 50, dict(nfiles=60))]
 def mangle_obligations(prefix):
     return [Ob(prefix + '-engine-selftest-mangle', 'MIR executor reproduces native go_ident / encode_ty on fixed inputs', ob_mangle_selftest, ('quick', 'thorough'), 1, {})]
+
+# ----------------------------------------------------------------------------- library models vs native std: differential probes (added after two mis-modelled std operations had produced wrong passes)
+def probe_cases():
+    cases = []
+    for op in range(18):
+        for ti in range(5):
+            rng = range(0, 8)
+            if op in (0, 1, 8): cases += [('s', op * 5 + ti, a, b) for a in rng for b in rng]
+            elif op in (2, 3, 4, 6, 9): cases += [('s', op * 5 + ti, a, 0) for a in rng]
+            elif op in (5, 7): cases += [('s', op * 5 + ti, 0, b) for b in rng]
+            else: cases.append(('s', op * 5 + ti, 0, 0))
+    for op in range(36):
+        if op in (2, 4, 14, 26, 27): cases += [('i', op, a, b) for a in range(0, 6) for b in range(0, 6)]
+        elif op in (0, 1, 6, 28): cases.append(('i', op, 0, 0))
+        elif op in (7, 8, 9, 10, 15, 22, 23): cases += [('i', op, a, 0) for a in (5, 10, 20, 25, 40, 45)]
+        elif op in (24, 25, 30, 32, 33): cases += [('i', op, a, b) for a in (0, 1, 3, 20, 200, 255) for b in (0, 1, 3, 30, 100)]
+        else: cases += [('i', op, a, a) for a in range(0, 6)]
+    return cases
+
+def ob_model_selftest(r, tier, seed):
+    import subprocess
+    from mirsym.engine import Panic, Limit
+    d, binp = build.probe_build()
+    base = ms.load_world(d, ['modelprobe'])
+    cases = probe_cases()
+    r.bounds = '%d concrete calls of the probe functions of /verif/modelprobe (std-only Rust: str slicing / get / is_char_boundary / insert_str / find / split / trim / char_indices on texts with multi-byte characters at every pair of byte offsets, slice and iterator chains - rev / enumerate in both orders, skip / take / zip / chain / filter / position / max_by_key / chunks / chunks_exact / drain / retain / insert / remove / split_at / binary_search / dedup / sort / join -, integer casts and checked arithmetic), each run natively (stable toolchain) and through the MIR interpreter' % len(cases)
+    r.assumptions = ['not a property of goml: validates the library models of the engine (trusted base) against the real standard library; a mismatch makes every claim resting on the engine inconclusive', 'an operation the engine has no model for is counted as unmodelled, not as a mismatch (it fails closed wherever an obligation meets it)']
+    p = subprocess.run([binp], input=''.join('%s %d %d %d\n' % c for c in cases), capture_output=True, text=True, timeout=300)
+    native = [json.loads(l) for l in p.stdout.splitlines()]
+    if len(native) != len(cases): raise Unsupported('native probe run gave %d answers for %d cases: %s' % (len(native), len(cases), p.stderr[-200:]))
+    unmodelled = {}; bad = []
+    for c, nat in zip(cases, native):
+        W = ms.World.__new__(ms.World); W.__dict__.update(base.__dict__)
+        W.res_cache = dict(base.res_cache); W.const_vals = {}; W.solver = z3.Solver(); W.queries = 0; W.solver_time = 0.0
+        W.bodies_run = set(); W.models_used = set(); W.steps_total = 0; W.model_cache = {}; W.overrides = []; W.stubs = {}; W.hash_order = 'insertion'
+        def entry(ex, c=c): return [int(x) for x in ex.call('probe' if c[0] == 's' else 'probe_iter', [c[1], c[2], c[3]], 'modelprobe').items]
+        try: res, done = ms.explore(W, entry, [], path_limit=50)
+        except Unsupported as e_:
+            unmodelled.setdefault(str(e_)[:120], []).append(c); continue
+        except Exception as e_:
+            bad.append((c, 'engine error: %s' % str(e_)[:120], nat)); continue
+        r.cases += 1; r.models = sorted(set(r.models) | set(W.models_used)); r.steps += W.steps_total; r.paths += len(res)
+        if len(res) != 1: bad.append((c, 'forked into %d paths' % len(res), nat)); continue
+        got = [-2] if res[0].kind != 'ok' else res[0].value
+        if res[0].kind != 'ok' and isinstance(res[0].value, str) and 'Unsupported' in res[0].value: unmodelled.setdefault(res[0].value[:120], []).append(c); continue
+        r.nontrivial += 1
+        if got != nat: bad.append((c, got, nat))
+    r.notes.append('operations without a model (fail closed wherever met): %s' % {k: len(v) for k, v in unmodelled.items()})
+    r.samples = [{'probe': list(c), 'result': nat} for c, nat in list(zip(cases, native))[:3]]
+    r.mismatches = bad
+    if bad: raise Unsupported('MODEL MISMATCH in %d of %d probes (probe functions %s), first: probe%s -> engine %s, native std %s' % (len(bad), len(cases), sorted(set((b[0][0], b[0][1] // 5 if b[0][0] == 's' else b[0][1]) for b in bad)), bad[0][0], bad[0][1], bad[0][2]))
+
+def obligations_models(prefix):
+    return [Ob(prefix + '-engine-selftest-models', 'library models of the engine agree with native std on the differential probes', ob_model_selftest, ('quick', 'thorough'), 3, {})]
